@@ -931,8 +931,8 @@ func h5PorcupineModel() porcupine.Model {
 func h5Concurrent[T num, A arr[T, A]](k kit[T, A], rc *RunCtx, o *Outcome, ctl *hdf5.Control) {
 	w := rc.W
 	ctl.Latency = w.Bool(50)
-	fn := "/sim/c.h5"
-	nDS := 1 + w.Choose(2)
+	fnames := []string{"/sim/c.h5", "/sim/d.h5"}
+	nDS := 1 + w.Choose(3)
 	type dsInfo struct {
 		path  string
 		shape []int
@@ -952,8 +952,10 @@ func h5Concurrent[T num, A arr[T, A]](k kit[T, A], rc *RunCtx, o *Outcome, ctl *
 	for i := 0; i < nDS; i++ {
 		shape := drawShape(w, false)
 		vals := uniq(product(shape))
-		dss = append(dss, dsInfo{h5Paths[i], shape})
-		events = append(events, h5Event{Client: 0, Call: int64(-2*nDS + 2*i), Return: int64(-2*nDS + 2*i + 1), In: h5In{Op: "init", Path: h5Paths[i], Shape: shape, Vals: vals}})
+		// datasets are spread over two files: the library is not thread-safe across files either
+		full := fnames[i%2] + ":" + h5Paths[i]
+		dss = append(dss, dsInfo{full, shape})
+		events = append(events, h5Event{Client: 0, Call: int64(-2*nDS + 2*i), Return: int64(-2*nDS + 2*i + 1), In: h5In{Op: "init", Path: full, Shape: shape, Vals: vals}})
 	}
 	nClients := 2 + w.Choose(3)
 	opsPer := 2 + w.Choose(5)
@@ -988,7 +990,7 @@ func h5Concurrent[T num, A arr[T, A]](k kit[T, A], rc *RunCtx, o *Outcome, ctl *
 	o.Sample = map[string]interface{}{"mode": "concurrent", "element_type": k.name, "clients": nClients, "operations_per_client": opsPer, "datasets": len(dss), "latency": ctl.Latency}
 	s := simrt.Run(rc.T, simrt.Config{}, rc.S, func() {
 		for _, e := range events {
-			if err := k.ref(fn, e.In.Path, nil).Write(makeSource(k, 0, e.In.Shape, e.In.Vals, w)); err != nil {
+			if err := refOf(k, e.In.Path, nil).Write(makeSource(k, 0, e.In.Shape, e.In.Vals, w)); err != nil {
 				panic("harness: initial write failed: " + err.Error())
 			}
 		}
@@ -999,7 +1001,7 @@ func h5Concurrent[T num, A arr[T, A]](k kit[T, A], rc *RunCtx, o *Outcome, ctl *
 				for _, in := range plans[c] {
 					simrt.Yield("h5:client-op")
 					ev := h5Event{Client: c + 1, In: in, Call: simrt.NextSeq()}
-					ref := k.ref(fn, in.Path, in.Sel)
+					ref := refOf(k, in.Path, in.Sel)
 					switch in.Op {
 					case "write":
 						ev.Out.Err = ref.Write(makeSource(k, 0, in.Shape, in.Vals, nil)) != nil
@@ -1093,3 +1095,9 @@ func drawSelNoRemainder(w *simrt.Tape, shape []int) [][]int {
 }
 
 var _ = unsafe.Pointer(nil)
+
+// refOf resolves "file:dataset".
+func refOf[T num, A arr[T, A]](k kit[T, A], full string, sel [][]int) h5ref[T, A] {
+	i := strings.Index(full, ":")
+	return k.ref(full[:i], full[i+1:], sel)
+}
